@@ -26,11 +26,12 @@ pub struct CfgOpts {
     pub full_window_pct: u64,
     pub max_window: u16,
     pub need_supported: bool,
+    pub large_windows: bool,
 }
 
 impl Default for CfgOpts {
     fn default() -> Self {
-        CfgOpts { level: Level::Any, sim_models: true, giant: true, builtin_only: false, full_window_pct: 4, max_window: 64, need_supported: true }
+        CfgOpts { level: Level::Any, sim_models: true, giant: true, builtin_only: false, full_window_pct: 4, max_window: 64, need_supported: true, large_windows: true }
     }
 }
 
@@ -77,6 +78,14 @@ pub fn gen_window(rng: &mut Rng, fw: u16, fh: u16, o: &CfgOpts, allow_full: bool
     let cap = |v: u16, m: u16| v.min(m).max(1);
     let (w, h) = if allow_full && rng.chance(o.full_window_pct, 100) {
         (fw, fh)
+    } else if o.large_windows && rng.chance(1, 10) && (fw > 257 || fh > 257) {
+        // logical coordinates beyond 255: the high byte of the address parameters matters
+        let big = |rng: &mut Rng, f: u16| if f > 257 { 257 + rng.below((f - 257) as u64 + 1) as u16 } else { cap(1 + rng.below(o.max_window as u64) as u16, f) };
+        if rng.coin() {
+            (big(rng, fw), cap(1 + rng.below(o.max_window as u64) as u16, fh))
+        } else {
+            (cap(1 + rng.below(o.max_window as u64) as u16, fw), big(rng, fh))
+        }
     } else {
         match rng.below(10) {
             0 => (1, 1),
@@ -262,9 +271,18 @@ pub fn boundary_coord(rng: &mut Rng, extent: u32) -> i32 {
 
 /// one shape of a draw_iter stream; appends to `out`
 fn stream_shape(rng: &mut Rng, lw: u32, lh: u32, max_px: u64, out: &mut Vec<(i32, i32, u32)>) {
-    let rx = |rng: &mut Rng| rng.below(lw as u64) as i32;
-    let ry = |rng: &mut Rng| rng.below(lh as u64) as i32;
-    let shape = rng.below(12);
+    let edge = |rng: &mut Rng, ext: u32| -> i32 {
+        (match rng.below(10) {
+            0 => 0,
+            1 => 1.min(ext - 1),
+            2 => ext - 1,
+            3 => ext.saturating_sub(2),
+            _ => rng.below(ext as u64) as u32,
+        }) as i32
+    };
+    let rx = |rng: &mut Rng| edge(rng, lw);
+    let ry = |rng: &mut Rng| edge(rng, lh);
+    let shape = rng.below(13);
     match shape {
         0 | 1 => {
             // one left-to-right run of a chosen length, possibly continuing on the next rows
@@ -375,6 +393,25 @@ fn stream_shape(rng: &mut Rng, lw: u32, lh: u32, max_px: u64, out: &mut Vec<(i32
                 out.push((x0, y0 + r as i32, gen_colour(rng)));
             }
         }
+        11 => {
+            // a few equal rows, then one of them (often the last) drawn again right away
+            let l = (1 + rng.below(24) as u32).min(lw);
+            let r = (2 + rng.below(3) as u32).min(lh);
+            let x0 = rng.below((lw - l) as u64 + 1) as i32;
+            let y0 = match rng.below(3) {
+                0 => 0,
+                _ => rng.below((lh - r) as u64 + 1) as i32,
+            };
+            for yy in 0..r as i32 {
+                for xx in 0..l as i32 {
+                    out.push((x0 + xx, y0 + yy, gen_colour(rng)));
+                }
+            }
+            let again = if rng.chance(2, 3) { r as i32 - 1 } else { rng.below(r as u64) as i32 };
+            for xx in 0..l as i32 {
+                out.push((x0 + xx, y0 + again, gen_colour(rng)));
+            }
+        }
         _ => {
             // uniformly random points
             let n = 1 + rng.below(40.min(max_px));
@@ -463,6 +500,13 @@ fn visible_of(r: &Rect, lw: u32, lh: u32) -> u64 {
     } else {
         ((x1 - x0 + 1) * (y1 - y0 + 1)) as u64
     }
+}
+
+/// the shadow build with the 16-bit-pointer helpers skips colours one `next()` at a time:
+/// legal, but linear in the rectangle area - keep areas where a run stays cheap
+pub fn ptr16_build() -> bool {
+    static P: std::sync::OnceLock<bool> = std::sync::OnceLock::new();
+    *P.get_or_init(|| std::env::var("VERIF_BUILD_TAG").map(|t| t.contains("ptr16")).unwrap_or(false))
 }
 
 fn valid_eg_rect(r: &Rect) -> bool {
@@ -558,6 +602,9 @@ pub fn gen_rect_any(rng: &mut Rng, lw: u32, lh: u32, max_visible: u64) -> Rect {
                 Rect { x: x as i32, y: y as i32, w: w as u32, h: h as u32 }
             }
         };
+        if ptr16_build() && r.w as u64 * r.h as u64 > (1 << 20) {
+            continue;
+        }
         if valid_eg_rect(&r) && visible_of(&r, lw, lh) <= max_visible {
             return r;
         }
@@ -599,6 +646,9 @@ pub fn gen_colors_for(rng: &mut Rng, rect: &Rect, lw: u32, lh: u32, exact_or_les
 
 #[derive(Clone, Debug)]
 pub struct ProgOpts {
+    /// per cent of calls that are not drawing calls at all (tearing effect, scroll, sleep,
+    /// wake): they must not disturb the drawing around them
+    pub other_pct: u64,
     pub min_ops: u64,
     pub max_ops: u64,
     /// weights: set_pixel, set_pixels, draw_iter, fill_contiguous, fill_solid, clear
@@ -627,6 +677,17 @@ pub fn gen_draw_program(rng: &mut Rng, cfg: &Config, orient: Orient, o: &ProgOpt
     }
     let mut prog = Vec::new();
     for _ in 0..n {
+        if o.other_pct > 0 && rng.chance(o.other_pct, 100) {
+            prog.push(match rng.below(6) {
+                0 => Op::Tearing { te: rng.below(3) as u8 },
+                1 => Op::ScrollOffset { offset: rng.below(65536) as u16 },
+                2 => Op::ScrollRegion { top: rng.below(40) as u16, bottom: rng.below(40) as u16 },
+                3 => Op::Sleep,
+                4 => Op::Wake,
+                _ => Op::Tearing { te: 0 },
+            });
+            continue;
+        }
         let op = match rng.weighted(&weights) {
             0 => Op::SetPixel { x: rng.below(lw as u64) as u16, y: rng.below(lh as u64) as u16, c: gen_colour(rng) },
             1 => {
